@@ -87,6 +87,27 @@ theorem call_baseCloses (cfg : Cfg) (ie so : Bool) (c : Call) (sc : Script) : Ba
         intro a e h
         (repeat' split at h)
         all_goals first | (cases h; rfl) | cases h
+  | stats args =>
+    simp only [call]
+    split
+    · exact baseCloses_early _ _
+    · exact baseCloses_mapOut _ _ (baseCloses_fetch _ _ _ _ _ _) (fun a e h => by cases h)
+  | cacheMemlimit m =>
+    simp only [call]
+    split
+    · exact baseCloses_early _ _
+    · split
+      · exact baseCloses_early _ _
+      · exact baseCloses_mapOut _ _ (baseCloses_fetch _ _ _ _ _ _) (fun a e h => by cases h)
+  | shutdown g =>
+    -- `swallowClose` changes the result only; whatever the exception, `_misc_cmd` closed the socket
+    intro e h _
+    rw [call_shutdown, swallowClose_sockOpen, mapOut_sockOpen]
+    cases ho : (exchangeMisc [shutdownCmd g] false none so sc).sockOpen with
+    | false => rfl
+    | true =>
+      obtain ⟨r, h1, -⟩ := exchangeMisc_open _ _ _ _ _ ho
+      rw [shutdown_res_ok cfg ie so g sc h1] at h; cases h
   | _ =>
     simp only [call]
     repeat' split
